@@ -114,12 +114,13 @@ def gen_definition(rng, fam):
             return L.eq("result()", "'a'")
         if r < 0.9:
             return L.eq("ctx().x", "0")
-        if r < 0.96:
+        if r < 0.94:
             # conditions whose value is not a boolean: truthiness decides ([] / "" / 0 / null are false)
             return rng.choice([L.ctx("lst"), L.e("result()"), L.ctx("x"), L.ctx("n"), L.e("ctx().get('z')"),
-                               L.ctx("dv"),
-                               # a filter pipeline: its value is a (possibly empty) sequence, truthiness decides
-                               L.e("ctx().lst.where($ > 5)", "ctx().lst | select('gt', 5)"),
+                               L.ctx("dv")])
+        if r < 0.985:
+            # a filter pipeline: its value is a (possibly empty) sequence, truthiness decides
+            return rng.choice([L.e("ctx().lst.where($ > 5)", "ctx().lst | select('gt', 5)"),
                                L.e("ctx().lst.where($ > 1)", "ctx().lst | select('gt', 1)"),
                                L.e("ctx().lst.where($ > 5)", "ctx().lst | reject('lt', 9)")])
         return L.e("succeeded() and ctx().n < 5")
@@ -242,6 +243,10 @@ def gen_definition(rng, fam):
             if rng.random() < fam["p_join_count"]:
                 if rng.random() < fam["p_late_join"]:
                     tasks[t]["join"] = rng.randint(1, len(srcs) - 1)
+                    # a join that can start before all branches arrived, and is retried: a branch arriving while
+                    # the retry is staged meets the re-staged entry
+                    if rng.random() < fam.get("p_join_retry", 0.0) and "retry" not in tasks[t]:
+                        tasks[t]["retry"] = {"count": rng.choice([1, 2])}
                 else:
                     tasks[t]["join"] = len(srcs)
             else:
@@ -384,7 +389,7 @@ def run_history(sess, rng, fam, oracle, max_steps=None):
             if r < 0.5 or not recs:
                 reqs = []
             else:
-                picks = rng.sample(recs, min(len(recs), rng.randint(1, 2)))
+                picks = rng.sample(recs, min(len(recs), rng.randint(1, 3)))
                 reqs = [[p["id"], p["route"], rng.random() < 0.3] for p in picks]
                 if rng.random() < 0.1:
                     reqs.append(["zz_missing", 0, False])
